@@ -631,6 +631,26 @@ func (fx *fnExec) evalCall(e *Expr, env *Env) TV {
 			panic(contractErr("unknown type " + tn))
 		}
 		return TV{Sc{eq(v.Tag, num(int64(tag))), SBool}, tBool}
+	case "fieldNil": // fieldNil(x, "F"): x is an interface holding a node; whatever its type, its pointer field F (if it has one) is nil
+		v := fx.eval(e.Args[0], env).V.(IfV)
+		fn := e.Args[1].Str
+		var cs []string
+		for _, ht := range sortedKeys(g.nodeInfos()) {
+			ni := g.nodeInfos()[ht]
+			for i := 0; i < ni.st.NumFields(); i++ {
+				f := ni.st.Field(i)
+				if f.Name() != fn {
+					continue
+				}
+				if _, isPtr := f.Type().Underlying().(*types.Pointer); !isPtr {
+					continue
+				}
+				if tag, ok := g.tagByName("*" + ht); ok {
+					cs = append(cs, implies(eq(v.Tag, num(int64(tag))), eq(sel(fx.heapLeaf(env.cur, ht+"."+fn, SInt), v.Ref), "0")))
+				}
+			}
+		}
+		return TV{Sc{and(cs...), SBool}, tBool}
 	case "precOK": // the ghost precedence of a primary expression (no operator node type) is 0
 		v := fx.eval(e.Args[0], env)
 		defs := fx.g.cs.GhostDefs["prec"]
